@@ -51,6 +51,8 @@ def run_episode(spec, uid="E"):
         kw = dict(it.get("kw") or {})
         kwargs = dict(kw)
         if aliases is not None:
+            # "=SELF": the alias text is the module's own rendered name
+            aliases = [dict(a, text=render(a["mod"]) if a["text"] == "=SELF" else a["text"]) for a in aliases]
             pairs = [(render(a["mod"]), a["text"]) for a in aliases]
             if it.get("order") == "desc":
                 pairs.reverse()
